@@ -37,7 +37,8 @@ func init() {
 			w.Invs = []int{w.Inv}
 			emit("serve", []string{"C01", mustJSON(w)}, "served/"+class, true)
 		})
-		return nil
+		// resources that resemble the proof wildcard without being it
+		return worldGen("C01", 120, 2400, genOpts{minDepth: 1, maxDepth: 4, kinds: []string{"ucanscoped"}})(cfg, emit)
 	}
 	// C02: restricting caveats at every level, all three derivation rules, re-delegated attestations
 	c02 := worldGen("C02", 2000, 40000, genOpts{maxDepth: 5, sessions: true, sessionPct: 30, caveats: true, caveatPct: 60,
@@ -92,6 +93,11 @@ func init() {
 			kinds: []string{"none", "none", "permute"}})(cfg, emit); err != nil {
 			return err
 		}
+		// a did:web service: an attestation by the service's bare key on that key's own did:key is not the authority's
+		if err := worldGen("C04", 80, 1600, genOpts{minDepth: 1, maxDepth: 4, sessions: true, sessionPct: 100, attVariant: 16, webService: true,
+			kinds: []string{"none", "none", "permute"}})(cfg, emit); err != nil {
+			return err
+		}
 		// the same, as a server applies it: the server has answered the batch before, when the account's
 		// DID resolved to the key that really signed (a rotated key, a corrected resolver entry)
 		ns := 240
@@ -127,6 +133,15 @@ func init() {
 			w.Services = []ASvc{{Can: w.Desc.Can, Result: "ok"}}
 			w.Invs = []int{w.Inv}
 			emit("serve", []string{"C05", mustJSON(w)}, "served/"+class, true)
+		})
+		// a checker that panics where it would report the revocation: the authorization must not be used
+		genWorlds(cfg, 24, genOpts{maxDepth: 4, kinds: []string{"revoke"}}, func(w *AWorld, class string) {
+			if len(w.Revoked) == 0 {
+				return
+			}
+			w.Services = []ASvc{{Can: w.Desc.Can, Result: "ok"}}
+			w.Invs = []int{w.Inv}
+			emit("servepanic", []string{"C05", mustJSON(w)}, "checker-panics/"+class, true)
 		})
 		// tokens the service issued itself (session attestations) can be revoked like any other
 		genWorlds(cfg, n/3, genOpts{minDepth: 1, maxDepth: 4, sessions: true, sessionPct: 100, properSession: true, kinds: []string{"revoke-att", "revoke-att", "none"}}, func(w *AWorld, class string) {
@@ -164,6 +179,16 @@ func init() {
 			ns = 4000
 		}
 		genWorlds(cfg, ns, genOpts{minDepth: 2, maxDepth: 6, sessions: true, sessionPct: 20, kinds: []string{"none", "none", "decoys", "permute", "deadend"}}, func(w *AWorld, class string) {
+			w.Services = []ASvc{{Can: w.Desc.Can, Result: "ok"}}
+			w.Invs = []int{w.Inv}
+			emit("serve", []string{"C06", mustJSON(w)}, "served/"+class, true)
+		})
+		// a proof cited twice, the first time as a copy that lacks its own proofs; blocks of no bytes travelling
+		// with a token: the chain is as valid as without them (direct and served)
+		if err := worldGen("C06", 100, 2000, genOpts{minDepth: 2, maxDepth: 5, kinds: []string{"dup", "dup", "emptyattach"}})(cfg, emit); err != nil {
+			return err
+		}
+		genWorlds(cfg, ns/2, genOpts{minDepth: 2, maxDepth: 5, kinds: []string{"dup", "emptyattach"}}, func(w *AWorld, class string) {
 			w.Services = []ASvc{{Can: w.Desc.Can, Result: "ok"}}
 			w.Invs = []int{w.Inv}
 			emit("serve", []string{"C06", mustJSON(w)}, "served/"+class, true)
